@@ -1,15 +1,32 @@
-"""Keeps MANIFEST.json's not_applicable list current: every property that has no check is listed with a reason."""
-import json, sys
+"""Regenerates MANIFEST.json from the table below; every property without a check is listed under not_applicable."""
+import json
+CLAIMS = {
+ 'C06': ('proof', 'contracts on the glue from regex groups to TIMEX/value for absolute dates (match_to_date, generate_dates, safe_create_*, is_valid_date, format_date, luis_date): with an explicit 4-digit year the TIMEX and both values are that date and do not depend on the reference', 'which layouts the date regexes accept and which group receives which substring (regex layer) is assumed; culture tables month_of_year/day_of_month abstracted to their ranges'),
+ 'C07': ('proof', 'contracts on match_to_time (24h and 12h+am/pm incl. hour 0), to_pm (second reading twelve hours later), merge_date_and_time (date + time composition), time formatters', 'time regexes and am/pm descriptor regexes are environment values; prefix/suffix adjusters absent; sub-parsers in merge_date_and_time abstracted by their contracts'),
+ 'C08': ('proof', 'contracts on DateUtils.this/next/last (requested ISO weekday in the current/following/preceding ISO week, time kept) and AgoLaterUtil.get_date_result (R +- N days/weeks/hours/minutes/seconds)', 'month/year arithmetic depends on the missing datedelta package and is not claimed; phrase classification by regex assumed'),
+ 'C09': ('proof', 'generate_dates and match_to_date for year-less dates: future = earliest occurrence on or after the reference date, past = latest strictly before, incl. 29 February (years 1950..2090); known finding KF-C09-* for a non-midnight reference on the day itself', 'regex layer assumed; see known_findings.json'),
+ 'C10': ('proof', 'luis_time_span denotes exactly end - begin; period unit counts and (start,end,P<n>D) triples', 'float N as real; regexes assumed'),
+ 'C11': ('proof', 'the validity / formatting guard layer every value passes through: is_valid_date == calendar validity, safe_create_* yield a valid datetime or the min-value marker, formatters produce well-formed YYYY-MM-DD / HH:MM:SS, to_pm stays within 00..23', 'value construction sites in base_*period.py are not individually under contract'),
+ 'C15': ('proof', 'pre/postconditions on the real TimexResolver / TimexRangeResolver / TimexDateHelpers / TimexValue / TimexHelpers / TimexConstraintsHelper functions incl. loop invariant + termination for dates_matching_day and collapse for up to 3 ranges', 'Decimal as real; TIMEX string parsing (TimexRegex) outside these contracts; collapse/inner_collapse for list length <= 3 (the property quantifies over 1-3 constraints)'),
+}
+FIXED_NA = {'C18': "equality of two concrete artefacts decided only by running the generator (ruamel.yaml absent); not a contract over a function's inputs (DESIGN section 8)",
+            'C19': 'finite example table decided by executing regex engines: testing, not a contract (DESIGN section 8)'}
 m = json.load(open('MANIFEST.json'))
-claimed = {c['property_id'] for c in m['checks']}
-fixed = {'C18': "equality of two concrete artefacts decided only by running the generator (ruamel.yaml absent); not a contract over a function's inputs (DESIGN section 8)",
-         'C19': 'finite example table decided by executing regex engines: testing, not a contract (DESIGN section 8)'}
+checks = []
+for pid, (cat, text, note) in sorted(CLAIMS.items()):
+    checks.append({
+        'property_id': pid, 'quick_cmd': f'./check {pid} --tier quick', 'thorough_cmd': f'./check {pid} --tier thorough',
+        'evidence_file': f'evidence/{pid}.json', 'replay_cmd_template': './check --replay {path}', 'engine': 'pyvc',
+        'level_claimed': {'category': cat, 'text': text, 'design_ref': f'DESIGN.md section 7 {pid}'},
+        'level_note': 'trusted: the pyvc VC generator and its library models (datetime as ordinal+seconds, str/int conversions via SMT-LIB str.from_int/to_int), z3/cvc5; ' + note,
+        'technique': 'contract-based deductive verification: sidecar contracts, VCs generated from the real AST on every run, discharged by z3/cvc5'})
+m['checks'] = checks
+claimed = set(CLAIMS)
 na = []
 for l in open('properties.jsonl'):
     pid = json.loads(l)['id']
-    if pid in claimed:
-        continue
-    na.append({'property_id': pid, 'reason': fixed.get(pid, 'no check registered yet: contracts for this property are still under construction (not a claim that the technique cannot apply)')})
+    if pid not in claimed:
+        na.append({'property_id': pid, 'reason': FIXED_NA.get(pid, 'no check registered yet: contracts for this property are still under construction (not a claim that the technique cannot apply)')})
 m['not_applicable'] = na
 for e in m.get('engines', []):
     if e['name'] == 'pyvc':
